@@ -223,7 +223,8 @@ func c12Monitor(args []string) int {
 					rep.Violate("no-bestmove", in(), "clock search")
 				}
 			case 3:
-				do("go infinite")
+				// an infinite search combined with limits that are reached at once still waits for stop
+				do([]string{"go infinite", "go infinite", "go infinite nodes 50", "go infinite depth 1", "go infinite movetime 5", "go nodes 20 infinite"}[rng.Intn(6)])
 				goCount++
 				time.Sleep(time.Duration(rng.Intn(30)) * time.Millisecond)
 				if rng.Chance(50) && !s.sync() {
@@ -252,7 +253,7 @@ func c12Monitor(args []string) int {
 					}
 					break
 				}
-				do("go ponder wtime 300 btime 300")
+				do([]string{"go ponder wtime 300 btime 300", "go ponder wtime 300 btime 300", "go ponder nodes 40 wtime 300 btime 300", "go ponder depth 1 wtime 300 btime 300", "go ponder nodes 30"}[rng.Intn(5)])
 				goCount++
 				time.Sleep(time.Duration(rng.Intn(25)) * time.Millisecond)
 				if s.count("bestmove") != before {
